@@ -30,6 +30,23 @@ def run(prop, tier, families_, explanation, assumptions=(), wf_clauses=(), item_
                 json.dump(base, f, indent=0, sort_keys=True)
     if post:
         post(rep, allrecs)
+    # translator validation: my C reference vs gcc -fwrapv, my symbolic domain vs my concrete domain (seeded states)
+    import random as _random
+    from .. import gccval
+    rng = _random.Random(framework.seed() + 99)
+    accepted = [r["c"] for r in allrecs if r["verdict"] == "equiv"]
+    sample = rng.sample(accepted, min(len(accepted), 400 if tier == "thorough" else 80))
+    gv = framework.pmap(gccval.validate_one, [(p, framework.seed() * 1000 + i) for i, p in enumerate(sample)], chunksize=4)
+    for st, detail in gv:
+        if st == "disagree":
+            rep.harness_error("C reference disagrees with gcc: " + detail)
+    dv = framework.pmap(gccval.domains_agree, [(p, framework.seed() * 1000 + i, d.get("unroll", 9)) for i, p in enumerate(sample[:40 if tier != "thorough" else 200])], chunksize=4)
+    for st, detail in dv:
+        if st == "disagree":
+            rep.harness_error("symbolic and concrete domain disagree: " + detail)
+    rep.coverage["translator_validation"] = dict(
+        reference_vs_gcc=dict(programs=len(gv), agree=sum(1 for x in gv if x[0] == "agree"), skipped=sum(1 for x in gv if x[0] == "skipped")),
+        symbolic_vs_concrete_domain=dict(programs=len(dv), agree=sum(1 for x in dv if x[0] == "agree"), skipped=sum(1 for x in dv if x[0] == "skipped")))
     decided = sum(1 for it in rep.items if it["status"] in ("ok", "violation"))
     rep.coverage.update(programs=total, disagreements_checked=sum(1 for it in rep.items if it["status"] == "violation"),
                         explanation=explanation, families=per,
